@@ -16,13 +16,16 @@ Definition info_ordered (s : nstate) : Prop :=
 (* the latest configuration is the newest configuration entry of log-or-snapshot *)
 Definition latest_is_newest (s : nstate) : Prop := st_latest s = InfoInv.newest_config s.
 
-(* The only thing assumed of the environment ([InfoInv.env_ok], stated there in full):
-   an append request does not contradict the receiver's log at an index that the receiver
-   already knows committed (commit index or committed configuration), a snapshot offered for
-   installation does not contradict such an index either, oracle values are legal, and the
-   replication updates a leader is handed carry indices of its own log.  Stale, duplicated,
-   reordered requests with any prev/commit coordinates, votes, time-outs, tasks, snapshots,
-   restarts are all allowed. *)
+(* The only thing assumed of the environment ([InfoInv.env_ok] = [InfoInvDefs.env_ok], stated in
+   Node/InfoInvDefs.v in full): the entries of an append request are numbered consecutively and do
+   not contradict the receiver's log at an index that the receiver already knows committed (commit
+   index or committed configuration); a snapshot offered for installation does not contradict such
+   an index either and carries the configuration in force at its index ([X1],[X2]); the
+   configuration handed to Bootstrap survives its own encoding ([X3]); no snapshot is requested
+   while the committed configuration is newer than the applied index ([X4]); and the match index a
+   replication reports to its leader is an index of the leader's log.  Stale, duplicated, reordered
+   requests with any prev/commit coordinates, votes, time-outs, tasks, snapshots, restarts, and
+   every oracle value the model accepts are all allowed. *)
 
 Theorem inv_initial : forall cid nid, InfoInv.node_inv (fresh_node cid nid).
 Proof. exact InfoInv.inv_initial. Qed.
@@ -55,3 +58,10 @@ Print Assumptions info_monotone.
 (* non-vacuity: a bootstrapped follower that accepted two entries and committed one *)
 Example inv_example : exists s, InfoInv.node_inv s /\ st_commit s = 2 /\ st_lastidx s = 3.
 Proof. exact InfoInv.inv_example. Qed.
+Print Assumptions inv_example.
+
+(* and such a state ends a history in which the environment behaves: bootstrap, then two append requests *)
+Example run_example :
+  exists tr s, InfoInv.nrun_ok (fresh_node 7 1) tr s /\ st_commit s = 2 /\ st_lastidx s = 3.
+Proof. exact InfoInv.run_example. Qed.
+Print Assumptions run_example.
